@@ -1,6 +1,6 @@
 #!/bin/sh
 # maintainer tool: run every registered check's quick tier for a range of seeds on the unchanged
-# tree and print one line per run (property seed exit wall).  usage: tools/soak.sh <first> <last> [props...]
+# tree and print one line per run (property seed exit wall).  usage: [TIER=thorough] tools/soak.sh <first> <last> [props...]
 cd "$(dirname "$0")/.."
 first=$1; last=$2; shift 2
 props="$*"
@@ -8,7 +8,7 @@ props="$*"
 for s in $(seq $first $last); do
   for p in $props; do
     t0=$(date +%s)
-    out=$(VERIF_SEED=$s ./check $p --tier quick 2>&1); rc=$?
+    out=$(VERIF_SEED=$s ./check $p --tier ${TIER:-quick} 2>&1); rc=$?
     echo "$p seed=$s exit=$rc wall=$(( $(date +%s) - t0 ))s $(echo "$out" | grep -c '^VIOLATION') violations"
     [ $rc -ne 0 ] && echo "$out" | grep '^VIOLATION' | head -5
   done
